@@ -622,3 +622,6 @@ def run(c, facts):
     c.run(lambda c: run_units(c, facts))
     c.run(r3_clamp, facts)
     c.run(r4_range_ends, facts)
+
+
+EXPLANATION += ' (R17) EVAL-UNCONDITIONAL (C15.R17 run here): a folder never keeps trees of an older text of an imported module.'
